@@ -280,8 +280,17 @@ class Ctx:
             self.__dict__.setdefault("_history", {}).setdefault(name, []).append(mine)
         try:
             fails = self.oracles[name](inp)
-        except Exception as e:  # an oracle crash is a harness bug, surface it loudly
-            raise RuntimeError(f"oracle {name} crashed on {json.dumps(inp, default=str)[:500]}: {type(e).__name__}: {e}") from e
+        except Exception as e:
+            import traceback
+            frames = traceback.extract_tb(e.__traceback__)
+            repo = os.environ.get("SCODA_REPO", "/repo")
+            if frames and os.path.abspath(frames[-1].filename).startswith(os.path.abspath(repo) + os.sep):
+                # raised *inside the implementation* and not anticipated by the oracle: the operation failed on an input of
+                # the property's domain — a failure of the property, reported with this input
+                where = f"{os.path.relpath(frames[-1].filename, repo)}:{frames[-1].lineno}"
+                fails = [("raises-unexpected", f"{type(e).__name__}: {e} (raised at {where})")]
+            else:           # an oracle crash in harness code is a harness bug, surface it loudly
+                raise RuntimeError(f"oracle {name} crashed on {json.dumps(inp, default=str)[:500]}: {type(e).__name__}: {e}") from e
         real = []
         for clause, detail in fails or []:
             if clause.startswith("~"):          # informational: hypothesis of the property not met, etc.
